@@ -107,6 +107,23 @@ func (fc *FnCtx) mapLookup(x *ssa.Lookup) {
 	}
 	fc.assert(fc.typeInv(val))
 	fc.mapInvAssume(x)
+	// TypeToRR holds a constructor for every type code of the record schema (the domain half of the structural
+	// obligation UnpackRRWithHeader#table.constructors): a miss means the code is none of them
+	if _, isTable := tableLookupKey(x); isTable && x.CommaOk {
+		fc.e.usesCtorTable = true
+		fc.e.assume("%s: no entry of TypeToRR is deleted at run time, so a code the package initialiser registered is found", fc.name)
+		k := key.S()
+		var ds []string
+		for _, st := range fc.e.cs.Schema {
+			if st.Code > 0 {
+				ds = append(ds, fmt.Sprintf("(not (= %s %d))", k, st.Code))
+			}
+		}
+		sortStrings(ds)
+		if len(ds) > 0 {
+			fc.assumeHere(implies(not(has), "(and "+strings.Join(ds, " ")+")"))
+		}
+	}
 }
 
 func (fc *FnCtx) mapUpdate(x *ssa.MapUpdate) {
